@@ -275,3 +275,24 @@ func topOutcomes(m map[string]int64, n int) map[string]int64 {
 	}
 	return out
 }
+
+// MergeInto moves the violations of a sub-report into dst.
+func (r *Report) MergeInto(dst *Report) {
+	r.mu.Lock()
+	defer r.mu.Unlock()
+	dst.mu.Lock()
+	defer dst.mu.Unlock()
+	dst.total += r.total
+	for _, class := range r.foundOrder {
+		f := r.found[class]
+		if _, ok := dst.found[class]; ok {
+			continue
+		}
+		if dst.perRule[f.Prop+"|"+f.Rule] >= 3 {
+			continue
+		}
+		dst.perRule[f.Prop+"|"+f.Rule]++
+		dst.found[class] = f
+		dst.foundOrder = append(dst.foundOrder, class)
+	}
+}
